@@ -80,7 +80,7 @@ pub fn c13(tier: &str, seed: u64) -> Vec<Case> {
         // the query
         let mut q = Packet::new_query(r.next() as u16);
         for _ in 0..r.range(0, 2) {
-            let qt = match r.below(10) { 0 | 7 => QTYPE::ANY, 8 => QTYPE::TYPE(TYPE::CNAME), 9 => QTYPE::TYPE(TYPE::NS), 1 => QTYPE::MAILB, 2 => QTYPE::TYPE(TYPE::SRV), 3 => QTYPE::TYPE(TYPE::AAAA), 4 => QTYPE::TYPE(TYPE::PTR), 5 => QTYPE::TYPE(TYPE::TXT), _ => QTYPE::TYPE(TYPE::A) };
+            let qt = match r.below(12) { 10 => *r.pick(&[QTYPE::AXFR, QTYPE::IXFR, QTYPE::MAILA]), 11 => QTYPE::TYPE(TYPE::MX), 0 | 7 => QTYPE::ANY, 8 => QTYPE::TYPE(TYPE::CNAME), 9 => QTYPE::TYPE(TYPE::NS), 1 => QTYPE::MAILB, 2 => QTYPE::TYPE(TYPE::SRV), 3 => QTYPE::TYPE(TYPE::AAAA), 4 => QTYPE::TYPE(TYPE::PTR), 5 => QTYPE::TYPE(TYPE::TXT), _ => QTYPE::TYPE(TYPE::A) };
             let qc = match r.below(6) { 0 => QCLASS::ANY, 1 => QCLASS::CLASS(CLASS::CH), _ => QCLASS::CLASS(CLASS::IN) };
             let qn = if !pool.is_empty() && r.chance(2, 3) { r.pick(&pool).name.clone() } else { mk_name(&r.pick(&names)[..]) };
             q.questions.push(Question::new(qn, qt, qc, r.chance(1, 4)));
